@@ -1,4 +1,5 @@
 import FrappyProofs.Lemmas.Dispatch
+import FrappyProofs.Lemmas.CheckChain
 import FrappyModel.Generated.C04
 import FrappyProofs.Props.C01
 /-
@@ -871,5 +872,147 @@ open Example in
 example : HistoryOK pre node [(env, .change (.full "m" "target_max") 80), (env, .change (.full "m" "target") 60),
     (env, .do_ (.full "m" "stop") none), (env, .read (.full "m" "_k") false)] :=
   (histories pre node wf _).1
+
+/-! ### the class layout decides which checks a parameter is subject to
+
+`Param.checks` is no longer data taken from the finished class: the model computes it from the class layout
+(`chainOf`, the transcription of `HasAccessibles.__init_subclass__` 156-172).  The theorems say what that chain means in
+terms of the layout alone. -/
+
+section layout
+open Frappy.ExtParams (Layer)
+open Frappy.Spec.C18 (AutoApplies)
+
+/-- **chain_layout_iff.**  A value passes the chain of check functions `__init_subclass__` builds for the class layout
+`ls` if and only if, for the position `stop` of the first programmer's hook that takes the decision over (if any), every
+programmer's hook of a class before it passes and — whenever the automatic limit check applies (`AutoApplies`: a class
+that defines one of `<p>_min/_max/_limits` first has no `check_<p>` of its own and stands before `stop`) — the value is
+inside the current dynamic limits. -/
+theorem chain_layout_iff (env : Env V) (mod : Module J V) (attr : String) (v : V) (ls : List Layer) :
+    ChecksOK env mod attr v (chainOf ls 0) ↔ LayoutChecksOK env mod attr v ls :=
+  ⟨chain_sound env mod attr v ls 0, fun ⟨stop, h⟩ => chain_complete env mod attr v ls 0 stop h⟩
+
+/-- **layout_change_calls_iff.**  `change_calls_iff` for a parameter equipped for the class layout `ls`: the clause
+"dynamic limits and check hooks are satisfied" is the one over the layout. -/
+theorem layout_change_calls_iff (pre : Predef) (env : Env V) (n : Node J V) (hwf : Node.WF pre n) (spec : Spec) (j : J)
+    (m attr : String) (w : V) (ls : List Layer)
+    (hlay : ∀ mod ∈ n, ∀ p, Acc.param p ∈ mod.accs → mod.name = m → p.attr = attr → p.checks = chainOf ls 0) :
+    (handleChange pre env n spec j).calls = [DriverCall.write m attr w] ↔
+      ∃ mod p v, Accepted pre env n spec j mod p v w ∧ LayoutChecksOK env mod attr v ls ∧ p.hasWrite = true ∧
+        mod.name = m ∧ p.attr = attr := by
+  rw [change_calls_iff pre env n hwf spec j m attr w]
+  constructor
+  · rintro ⟨mod, p, v, hacc, hw, hm, ha⟩
+    obtain ⟨_, _, _, hex⟩ := hacc.addressed
+    have hc := hlay mod hex.1 p hex.2.2.2.1 hm ha
+    have := hacc.checks
+    rw [hc, ha] at this
+    exact ⟨mod, p, v, hacc, (chain_layout_iff env mod attr v ls).1 this, hw, hm, ha⟩
+  · rintro ⟨mod, p, v, hacc, _, hw, hm, ha⟩
+    exact ⟨mod, p, v, hacc, hw, hm, ha⟩
+
+/-- **limits_not_switched_off.**  Whenever the driver is called for a parameter of a class with layout `ls`, the automatic
+limit check applies to the layout (`AutoApplies ls none`: e.g. the limits were introduced by a class that merely INHERITS
+a `check_<p>`), and no programmer's hook took the decision over, the value handed on is inside the module's current
+dynamic limits. -/
+theorem limits_not_switched_off (pre : Predef) (env : Env V) (n : Node J V) (hwf : Node.WF pre n) (spec : Spec) (j : J)
+    (m attr : String) (w : V) (ls : List Layer)
+    (hlay : ∀ mod ∈ n, ∀ p, Acc.param p ∈ mod.accs → mod.name = m → p.attr = attr → p.checks = chainOf ls 0)
+    (hauto : AutoApplies ls none)
+    (h : (handleChange pre env n spec j).calls = [DriverCall.write m attr w]) :
+    ∃ mod p v, Accepted pre env n spec j mod p v w ∧ mod.name = m ∧ p.attr = attr ∧
+      ((∀ i, i < ls.length → ownAt ls i = true → env.chk mod.name attr i v ≠ .stop) → LimitsOK env mod attr v) := by
+  obtain ⟨mod, p, v, hacc, ⟨stop, hl⟩, _, hm, ha⟩ := (layout_change_calls_iff pre env n hwf spec j m attr w ls hlay).1 h
+  refine ⟨mod, p, v, hacc, hm, ha, fun hns => ?_⟩
+  cases stop with
+  | none => exact hl.limits hauto
+  | some s =>
+    obtain ⟨h1, h2, h3⟩ := hl.stops s rfl
+    have := hns s h1 h2
+    rw [Nat.zero_add] at h3
+    exact absurd h3 this
+
+end layout
+
+/-! non-vacuity: `target_max` is introduced by a class that inherits a `check_target` hook from its base class
+(layout: most derived class declares `target_max`, its base defines `check_target`) -/
+
+namespace LayoutExample
+open Example Frappy.ExtParams
+
+def ls : List Layer := [{ declMax := true }, { ownCheck := true }]
+
+def targetL : Param Nat Nat := Example.target.withLayout ls
+def mL : Module Nat Nat := { name := "m", exported := true, accs := [.param targetL, .param targetMax, .param ro, .command stop], props := [] }
+def nodeL : Node Nat Nat := [mL]
+
+theorem wfL : Node.WF pre nodeL := by
+  refine ⟨by unfold namesNodup; decide +kernel, ?_, ?_, ?_, ?_⟩
+  · intro x hx; simp only [nodeL, List.mem_singleton] at hx; subst hx; unfold Module.attrsNodup; decide +kernel
+  · intro x hx; simp only [nodeL, List.mem_singleton] at hx; subst hx; unfold Module.wiresNodup; decide +kernel
+  · intro x hx; simp only [nodeL, List.mem_singleton] at hx; subst hx
+    intro a ha k hk
+    simp only [mL, List.mem_cons, List.not_mem_nil, or_false] at ha
+    rcases ha with rfl | rfl | rfl | rfl <;> revert hk <;> revert k <;> decide +kernel
+  · intro x hx; simp only [nodeL, List.mem_singleton] at hx; subst hx
+    intro a ha p hp hc
+    simp only [mL, List.mem_cons, List.not_mem_nil, or_false] at ha
+    rcases ha with rfl | rfl | rfl | rfl
+    · injection hp with hp; subst hp; simp [targetL, Param.withLayout, Example.target] at hc
+    · injection hp with hp; subst hp; simp [targetMax] at hc
+    · injection hp with hp; subst hp; rfl
+    · cases hp
+
+theorem layL : ∀ mod ∈ nodeL, ∀ p, Acc.param p ∈ mod.accs → mod.name = "m" → p.attr = "target" →
+    p.checks = chainOf ls 0 := by
+  intro mod hmod p hp _ ha
+  simp only [nodeL, List.mem_singleton] at hmod; subst hmod
+  simp only [mL, List.mem_cons, List.not_mem_nil, or_false] at hp
+  rcases hp with hp | hp | hp | hp
+  · injection hp with hp; subst hp; rfl
+  · injection hp with hp; subst hp; simp [targetMax] at ha
+  · injection hp with hp; subst hp; simp [ro] at ha
+  · cases hp
+
+end LayoutExample
+
+open LayoutExample Example in
+/-- the chain `__init_subclass__` builds for that layout: the limit check (attached to the class declaring `target_max`),
+then the inherited hook -/
+example : chainOf ls 0 = [.limits, .hook 1] ∧ Frappy.Spec.C18.AutoApplies ls none := by decide
+
+open LayoutExample Example in
+/-- above `target_max = 50`: refused although the class that introduced the limit inherits a hook; inside: the driver is
+called, and `limits_not_switched_off` yields `LimitsOK` (hypotheses satisfiable, conclusion non-trivial) -/
+example : (handleChange pre env nodeL (.full "m" "target") 60).reply = .error .rangeError ∧
+    (handleChange pre env nodeL (.full "m" "target") 60).calls = [] ∧
+    (handleChange pre env nodeL (.full "m" "target") 20).calls = [DriverCall.write "m" "target" 20] := by
+  decide +kernel
+
+open LayoutExample Example in
+example : ∃ mod p v, Accepted pre env nodeL (.full "m" "target") 20 mod p v 20 ∧ mod.name = "m" ∧ p.attr = "target" ∧
+    ((∀ i, i < ls.length → ownAt ls i = true → env.chk mod.name "target" i v ≠ .stop) → LimitsOK env mod "target" v) :=
+  limits_not_switched_off pre env nodeL wfL (.full "m" "target") 20 "m" "target" 20 ls layL (by decide) (by decide +kernel)
+
+open LayoutExample Example in
+/-- `chain_layout_iff` on the concrete module: 20 passes (stop = none), 60 does not -/
+example : LayoutChecksOK env mL "target" 20 ls ∧ ¬ LayoutChecksOK env mL "target" 60 ls := by
+  have hc : chainOf ls 0 = [.limits, .hook 1] := by decide
+  constructor
+  · refine (chain_layout_iff env mL "target" 20 ls).1 ?_
+    rw [hc]
+    refine Or.inr ⟨?_, Or.inr ⟨?_, trivial⟩⟩
+    · show LimitsOK env mL "target" 20
+      decide +kernel
+    · show env.chk mL.name "target" 1 20 = .pass
+      decide +kernel
+  · intro h
+    have := (chain_layout_iff env mL "target" 60 ls).2 h
+    rw [hc] at this
+    rcases this with h | ⟨h, _⟩
+    · exact h
+    · have h' : LimitsOK env mL "target" 60 := h
+      revert h'
+      decide +kernel
 
 end Frappy.Props.C04
